@@ -2,7 +2,9 @@
 //! Case lines:  `<id> <op> <type-id> <ty-term> <numbers...>`  (the ty-term is for the oracle; ignored here)
 //!   dec   decode the sequence; `OK <re-encoding>` (plus ` RTFAIL` if decoding the re-encoding does not give the
 //!         same value again), `ERR`, or `PANIC`
-//!   decm  as dec but prints only the verdict and the peak number of heap bytes allocated during the call
+//!   decm / decx  as dec but prints only the verdict and the peak number of heap bytes allocated during the
+//!         call (decx marks cases that must be rejected: truncated / extended valid encodings)
+//!   decv  = dec, marks a valid encoding (must be accepted)
 //!   slen  `static_length()`
 //!   polyb / polyx   (no type id) build Polynomial::new(raw coefficients), print its encoding
 #![allow(dead_code)]
@@ -81,7 +83,7 @@ fn go<T: BFieldCodec + Debug>(op: &str, s: &[BFieldElement]) -> String {
             }
             Err(_) => "ERR".to_string(),
         },
-        "decm" => {
+        "decm" | "decx" => {
             let base = CUR.load(Ordering::Relaxed);
             PEAK.store(base, Ordering::Relaxed);
             let r = panic::catch_unwind(|| match T::decode(s) {
